@@ -36,6 +36,8 @@ type atomicScn struct {
 	// with an up-to-date listed child, and the first file is named "f0.x" - a listed sibling that sorts BETWEEN the
 	// directory and its child in the file list but AFTER the child in a directory walk
 	Delete bool `json:"delete"`
+	// LnkDir: the replaced symlink "l" points to a DIRECTORY inside the destination ("t-old", also in the list)
+	LnkDir bool `json:"lnkdir"`
 }
 
 type atomicEvent struct {
@@ -68,6 +70,9 @@ type atomicObs struct {
 	Bytes   int64           `json:"bytes"` // bytes the reference sender wrote after the handshake
 	UpBytes int64           `json:"upbytes"`
 	Weak    bool            `json:"weak"` // judge atomicity only (the session may legitimately fail at the long name)
+	// Unlinked: listed paths that had previous content and were seen DELETED or MOVED AWAY by inotify during the
+	// session (an atomic replacement is a rename OVER the path: the watcher sees moved_to for it, never delete)
+	Unlinked []string `json:"unlinked"`
 	Scn     json.RawMessage `json:"scn"`
 }
 
@@ -137,7 +142,7 @@ func atomicSnapshot(dest string, files []atomicFile) (snap []string, lnk string,
 	default:
 		lnk = "other"
 	}
-	listed := map[string]bool{"l": true, "f0": true, "zz-extra": true} // (f0, zz-extra: only in --delete scenarios; not temp files)
+	listed := map[string]bool{"l": true, "f0": true, "zz-extra": true, "t-old": true} // (f0, zz-extra: only in --delete scenarios, t-old: lnkdir; not temp files)
 	for _, f := range files {
 		listed[f.name] = true
 	}
@@ -236,11 +241,46 @@ func atomicHandler(w *workerCtx, line []byte) (any, error) {
 		}
 	}
 	os.Symlink("t-old", filepath.Join(dest, "l"))
+	if s.LnkDir {
+		os.MkdirAll(filepath.Join(dest, "t-old"), 0o755)
+	}
 	lo := wirekit.ListOpts{Links: true}
 	fl := &wirekit.FileList{Entries: []wirekit.Entry{{Name: ".", Size: 4096, Mtime: 2_000_000, Mode: wirekit.SIFDIR | 0o755, Flags: wirekit.XTopDir}}}
 	for _, f := range files {
 		fl.Entries = append(fl.Entries, wirekit.Entry{Name: f.name, Size: int64(len(f.new)), Mtime: 2_000_000, Mode: wirekit.SIFREG | 0o644})
 	}
+	if s.LnkDir {
+		fl.Entries = append(fl.Entries, wirekit.Entry{Name: "t-old", Size: 4096, Mtime: 2_000_000, Mode: wirekit.SIFDIR | 0o755})
+	}
+	// watch the destination directory: which listed names are ever unlinked or moved away
+	watch, werr := startWatch([]string{dest}, nil)
+	if werr != nil {
+		return nil, werr
+	}
+	defer watch.close()
+	hadPrev := map[string]bool{"l": true}
+	for _, f := range files {
+		if f.old != nil {
+			hadPrev[f.name] = true
+		}
+	}
+	obs.Unlinked = []string{}
+	collectUnlinked := func() {
+		watch.drain(func(dir, name string) bool { return false })
+		seen := map[string]bool{}
+		for _, e := range watch.events {
+			parts := strings.SplitN(e, " ", 2)
+			if len(parts) != 2 {
+				continue
+			}
+			name := strings.TrimPrefix(parts[1], filepath.Base(dest)+"/")
+			if hadPrev[name] && (strings.Contains(parts[0], "delete") || strings.Contains(parts[0], "moved_from")) && !seen[name] {
+				seen[name] = true
+				obs.Unlinked = append(obs.Unlinked, name)
+			}
+		}
+	}
+	defer collectUnlinked()
 	rflags := "-rlt"
 	if s.Delete {
 		same := []byte("up to date")
